@@ -89,8 +89,9 @@ def initialize_dates_from_taxa(tree, taxa, tag='date'):
     dates = [taxon[tag] for taxon in taxa]
     max_date = max(dates)
 
-    # parse dates
-    if max_date != 0.0:
+    # parse dates (dates that are all <= 0 with the most recent one at 0 are not
+    # contemporaneous)
+    if max_date != 0.0 or min(dates) != 0.0:
         # time starts at 0
         if min(dates) == 0.0:
             for node in tree.leaf_node_iter():
